@@ -107,3 +107,66 @@ def async_schedules(seed, nsteps=10, tie=False, variants=None):
             counts[k] = max(counts[k], d[k]["n"])
     out["cfg"] = rt.machine_cfg(run, counts, user_steps=nsteps)
     return out
+
+
+# ------------------------------------------------------------------------------------------------
+# compiled runtime
+
+
+def _async_experiment(rng, spec, lengths, count_calls=False, jit_step=True):
+    """Run one async episode per entry of `lengths`; returns (run, [EpisodeRecord], [record dict]) or None if some
+    node/connection stayed empty (get_record cannot represent that)."""
+    run = rt.AsyncRun(spec, count_calls=count_calls, jit_step=jit_step)
+    recs, dicts = [], []
+    for e, n in enumerate(lengths):
+        gs = run.gs0.replace(eps=__import__("numpy").int32(e))
+        for _ in range(n):
+            gs = run.graph.run(gs)
+        run.graph.stop()
+        try:
+            rec = run.graph.get_record()
+        except TypeError:
+            return None
+        recs.append(rec)
+        dicts.append(rt.episode_record_to_dict(rec))
+    return run, recs, dicts
+
+
+def compiled_record_dict(gs):
+    rec = gs.aux["record"]
+    return {n: rt.node_record_to_dict(r) for n, r in rec.nodes.items()}
+
+
+def compiled_case(seed, nsteps=9, modes=("MCS", "GENERATIONAL", "TOPOLOGICAL"), prunes=(True, False), export=False, neps=2):
+    """async recording -> graph -> compiled rollouts for every (mode, prune); returns async + compiled records."""
+    import jax
+    import numpy as onp
+    from rex import base
+
+    rng = random.Random(seed)
+    spec = rt.rand_spec(rng)
+    lengths = [nsteps - (e % 2) * rng.randint(1, 3) for e in range(neps)]
+    exp = _async_experiment(rng, spec, lengths)
+    if exp is None:
+        return dict(skipped="empty record", spec=spec)
+    run, recs, dicts = exp
+    graphs_raw = base.ExperimentRecord(episodes=recs).to_graph()
+    out = dict(spec=spec, feats=sorted(rt.spec_features(spec)), lengths=lengths, async_records=dicts, compiled=[])
+    for mode in modes:
+        for prune in prunes:
+            t0 = time.time()
+            g = rt.compile_graph(run.nodes, run.sup, graphs_raw, mode=mode, prune=prune)
+            entry = dict(mode=mode, prune=prune, compile_s=round(time.time() - t0, 1), max_steps=int(g.max_steps), episodes=[])
+            if export:
+                entry["timings"] = rt.timings_to_dict(g.timings)
+                entry["buffer_sizes"] = {k: [int(x) for x in v] for k, v in g._buffer_sizes.items()}
+            for e in range(len(lengths)):
+                gs = g.init(rng=jax.random.PRNGKey(spec["seed"]), starting_eps=e)
+                gs = gs.replace(rng=run.gs0.rng, state=run.gs0.state, params=run.gs0.params)
+                gs = g.init_record(gs, params=True, rng=True, inputs=True, state=True, output=True)
+                gs = g.rollout(gs, carry_only=True)
+                entry["episodes"].append(compiled_record_dict(gs))
+            out["compiled"].append(entry)
+    if export:
+        out["graphs_raw"] = rt.graph_to_dict(graphs_raw)
+    return out
